@@ -1,9 +1,11 @@
 package selftest
 
 import (
+	"encoding/json"
 	"fmt"
 	"io/fs"
 	"os"
+	"os/exec"
 	"path/filepath"
 	"sort"
 	"strings"
@@ -21,6 +23,31 @@ type Mutant struct {
 	Rules []string // rules that must report it
 	Edits []Edit
 	Note  string
+	Base  string // optional: directory (relative to the verification directory) of a behaviour-preserving patch applied first
+	Prop  string // for compound cases: the property all of whose rules are run
+}
+
+// compoundCases reads compound/cases.json: a behaviour-preserving refactoring
+// from the corpus plus one breaking edit inside the refactored code.
+func compoundCases(prop string) []Mutant {
+	b, err := os.ReadFile(filepath.Join(VerifDir, "compound", "cases.json"))
+	if err != nil {
+		return nil
+	}
+	var cs []struct {
+		ID, Base, File, Old, New, Prop, Note, Expect string
+	}
+	if json.Unmarshal(b, &cs) != nil {
+		return nil
+	}
+	var out []Mutant
+	for _, c := range cs {
+		if c.Prop != prop || c.Expect != "" {
+			continue
+		}
+		out = append(out, Mutant{ID: "compound-" + c.ID, Note: c.Note + " (on top of " + c.Base + ")", Base: c.Base, Prop: c.Prop, Edits: []Edit{{c.File, c.Old, c.New}}})
+	}
+	return out
 }
 
 var catalogue = []Mutant{
@@ -135,11 +162,19 @@ func run(c *core.Ctx, p *core.Property, repo string) Outcome {
 	}
 	var results []res
 	t0 := time.Now()
-	for _, m := range catalogue {
+	all := append(append([]Mutant{}, catalogue...), compoundCases(p.ID)...)
+	for _, m := range all {
 		var rs []*core.Rule
 		for _, id := range m.Rules {
 			if r := ruleOf[id]; r != nil {
 				rs = append(rs, r)
+			}
+		}
+		if m.Prop == p.ID {
+			for _, r := range p.Rules {
+				if !r.Slow {
+					rs = append(rs, r)
+				}
 			}
 		}
 		if len(rs) == 0 {
@@ -157,6 +192,14 @@ func run(c *core.Ctx, p *core.Property, repo string) Outcome {
 			if err := copyTree(repo, dir); err != nil {
 				r.Status, r.Detail = "error", err.Error()
 				return
+			}
+			if m.Base != "" {
+				cmd := exec.Command("git", "apply", filepath.Join(VerifDir, m.Base, "patch.diff"))
+				cmd.Dir = dir
+				if outb, err := cmd.CombinedOutput(); err != nil {
+					r.Status, r.Detail = "stale", "base patch does not apply (the source changed; case skipped): "+strings.TrimSpace(string(outb))
+					return
+				}
 			}
 			for _, e := range m.Edits {
 				fp := filepath.Join(dir, e.File)
